@@ -27,11 +27,12 @@ out.append("| property | mutants that must be caught | behaviour-preserving vari
 out.append("|---|---|---|---|")
 by = collections.defaultdict(list)
 for m in mu:
-    by[m["prop"]].append(m)
+    for pr in (m["prop"] if isinstance(m["prop"], list) else [m["prop"]]):
+        by[pr].append(m)
 for p in sorted(by):
     ms = by[p]
     out.append("| %s | %d | %d | %s |" % (p, sum(1 for m in ms if m.get("expect") != "silent"), sum(1 for m in ms if m.get("expect") == "silent"),
-                                      ", ".join(sorted({"`%s`" % m["rule"] for m in ms}))))
+                                      ", ".join(sorted({"`%s`" % m["rule"] for m in ms if m.get("rule")}))))
 out.append("")
 out.append("### 9.3 Faults seeded by independent sub-agents\n")
 out.append("| id | what was broken (one line) | caught out of the box? | rule that reports it now |")
